@@ -620,7 +620,9 @@ def k_ref_malformed(f, rng):
         f.choices.setdefault("unused_list_zz", []).append({"name": full, "label": "same text as a choice name"})  # an unused list: no select's rules apply to it
         where += "+same-text-as-choice-name"
     e = Exp(r"On the 'survey' sheet, the '[^']+' value is invalid\. Reference expressions must only include question names", "row", row=r,
-            alt_patterns=(r"There is no survey element with this name",))
+            alt_patterns=(r"There is no survey element with this name",) +
+            # '${a.}}' is a well-formed reference followed by a brace: in the trigger column the diagnosis is the cell-shape error, with its row
+            ((r"Only references to other fields are allowed in the 'trigger' column",) if where.startswith("trigger") else ()))
     e.column = where
     e.bad = bad
     return e
